@@ -126,7 +126,7 @@ impl Circuit {
             return Err(CircuitError::EmptyOutputs);
         }
         for &o in self.output_regs.iter() {
-            if o > max_reg {
+            if o > max_reg || self.max_reg_count == 0 {
                 return Err(CircuitError::InvalidOutput(o));
             }
         }
@@ -140,8 +140,15 @@ impl Circuit {
                 return Err(CircuitError::InvalidInst(i));
             }
             match inst.op {
-                Op::Input(_) => {
+                Op::Input(Input { party, input }) => {
                     if i != inst.out.0 as usize {
+                        return Err(CircuitError::InvalidInput(i, *inst));
+                    }
+                    let input_exists = self
+                        .input_regs
+                        .get(party as usize)
+                        .is_some_and(|inputs| (input as usize) < *inputs);
+                    if !input_exists {
                         return Err(CircuitError::InvalidInput(i, *inst));
                     }
                 }
@@ -166,6 +173,11 @@ impl Circuit {
                 }
             }
             register_set[inst.out] = true;
+        }
+        for &o in self.output_regs.iter() {
+            if !register_set[o] {
+                return Err(CircuitError::InvalidRegAccess(self.insts.len(), o));
+            }
         }
 
         Ok(())
